@@ -78,6 +78,8 @@ class Ctx:
         self.defs = list(PI_AXIOMS)  # definitions of fresh symbols / assumed preconditions / axiom instances
         self.foralls = []  # (arity, extents, closure) universally quantified facts
         self.index_terms = []  # z3 Int terms used to instantiate foralls
+        self._index_keys = set()
+        self._instantiating = False
         self.counter = itertools.count()
         self.names = {}
         self.floordiv_cache = {}
@@ -119,24 +121,28 @@ class Ctx:
 
     def add_forall(self, extents, closure, name=""):
         """closure(*idx) -> z3 Bool; holds for all 0 <= idx_k < extents[k]"""
-        self.foralls.append((tuple(extents), closure, name))
+        self.foralls.append({"extents": tuple(extents), "closure": closure, "name": name, "inst": {}})
 
     def add_index_term(self, t, ext=None):
         """register an integer term at which universal facts are instantiated; `ext` (an extent term)
         restricts it to quantifier positions ranging over that extent"""
+        if self._instantiating:
+            return
         t = unwrap(t)
         if isinstance(t, int):
             t = z3.IntVal(t)
         ext = unwrap(ext)
         if isinstance(ext, int):
             ext = z3.IntVal(ext)
-        for u, e in self.index_terms:
-            if u.eq(t) and ((e is None and ext is None) or (e is not None and ext is not None and e.eq(ext))):
-                return
+        key = (t.get_id(), None if ext is None else ext.get_id())
+        if key in self._index_keys:
+            return
+        self._index_keys.add(key)
         self.index_terms.append((t, ext))
 
     def hypotheses(self, extra_terms=()):
-        """pc + defs + instances of the universal facts at the registered index terms"""
+        """pc + defs + instances of the universal facts at the registered index terms (quantifier-free;
+        instances are cached and instantiation itself does not register new terms)"""
         hyps = list(self.defs) + list(self.pc)
         for g in self.bound_guards:
             hyps.extend(g)
@@ -147,25 +153,45 @@ class Ctx:
                 t = z3.IntVal(t)
             if not any(u.eq(t) and e is None for u, e in terms):
                 terms.append((t, None))
-        for extents, closure, _ in self.foralls:
-            pools = []
-            for n in extents:
-                zn = unwrap(n)
-                if isinstance(zn, int):
-                    zn = z3.IntVal(zn)
-                pools.append([u for u, e in terms if e is None or e.eq(zn)])
-            for combo in itertools.product(*pools):
-                guard = []
-                for t, n in zip(combo, extents):
-                    guard.append(t >= 0)
-                    guard.append(t < unwrap(n))
-                try:
-                    body = unwrap(closure(*[Sym(t) for t in combo]))
-                except PathAbort:
-                    continue
-                if body is True:
-                    continue
-                hyps.append(z3.Implies(z3.And(*guard), body if not isinstance(body, bool) else z3.BoolVal(body)))
+        self._instantiating = True
+        try:
+            for fa in self.foralls:
+                extents, closure, inst = fa["extents"], fa["closure"], fa["inst"]
+                pools = []
+                for n in extents:
+                    zn = unwrap(n)
+                    if isinstance(zn, int):
+                        zn = z3.IntVal(zn)
+                    pool = [u for u, e in terms if e is None or e.eq(zn)]
+                    if z3.is_int_value(zn) and zn.as_long() <= 4:
+                        # small concrete extents are instantiated exhaustively
+                        have = {u.as_long() for u in pool if z3.is_int_value(u)}
+                        pool = [u for u in pool if not z3.is_int_value(u) or u.as_long() < zn.as_long()]
+                        pool += [z3.IntVal(v) for v in range(zn.as_long()) if v not in have]
+                    pools.append(pool)
+                for combo in itertools.product(*pools):
+                    key = tuple(t.get_id() for t in combo)
+                    if key in inst:
+                        if inst[key] is not None:
+                            hyps.append(inst[key])
+                        continue
+                    guard = []
+                    for t, n in zip(combo, extents):
+                        guard.append(t >= 0)
+                        guard.append(t < unwrap(n))
+                    try:
+                        body = unwrap(closure(*[Sym(t) for t in combo]))
+                    except PathAbort:
+                        inst[key] = None
+                        continue
+                    if body is True:
+                        inst[key] = None
+                        continue
+                    f = z3.Implies(z3.And(*guard), body if not isinstance(body, bool) else z3.BoolVal(body))
+                    inst[key] = f
+                    hyps.append(f)
+        finally:
+            self._instantiating = False
         return hyps
 
     def mark_nonneg(self, t):
@@ -526,6 +552,10 @@ def sub(a, b):
 def mul(a, b):
     if _both_conc(a, b):
         return pynum(a) * pynum(b)
+    if not isinstance(a, Sym) and isinstance(pynum(a), int) and not isinstance(pynum(a), bool) and pynum(a) == 1:
+        return b
+    if not isinstance(b, Sym) and isinstance(pynum(b), int) and not isinstance(pynum(b), bool) and pynum(b) == 1:
+        return a
     za, zb = _num2(a, b)
     return Sym(za * zb)
 
@@ -789,15 +819,24 @@ def Implies(a, b):
 
 
 def to_int_trunc(a):
-    """Python int(x): truncation toward zero"""
+    """Python int(x): truncation toward zero (a fresh integer with its defining inequalities)"""
     if not isinstance(a, Sym):
         return int(pynum(a))
     if a.is_int:
         return a
     if a.is_bool:
         return Sym(z3.If(a.e, z3.IntVal(1), z3.IntVal(0)))
-    e = a.e
-    return Sym(z3.If(e >= 0, z3.ToInt(e), -z3.ToInt(-e)))
+    e = z3.simplify(a.e)
+    c = ctx()
+    key = ("trunc", e.get_id())
+    if key in c.floordiv_cache:
+        return c.floordiv_cache[key]
+    q = c.fresh("ti", "Int")
+    qr = z3.ToReal(q)
+    c.defs.append(z3.If(e >= 0, z3.And(qr <= e, e < qr + 1), z3.And(qr - 1 < e, e <= qr)))
+    r = Sym(q)
+    c.floordiv_cache[key] = r
+    return r
 
 
 def to_float(a):
